@@ -102,6 +102,9 @@ fn cc_inv(cc: &CubicCongestionController) -> bool {
 fn any_cc(ca: bool, full: bool) -> CubicCongestionController {
     let mds: u16 = kani::any();
     kani::assume(mds >= 1200 && mds <= 9000);
+    any_cc_mds(mds, ca, full)
+}
+fn any_cc_mds(mds: u16, ca: bool, full: bool) -> CubicCongestionController {
     let mut cc = CubicCongestionController::new(mds, Default::default());
     let cwnd = any_window(mds, full);
     cc.congestion_window = cwnd;
@@ -170,12 +173,12 @@ macro_rules! common_post {
 }
 
 // ---------------------------------------------------------------------------------------------------
-//@ harness props=C10 tier=quick level=bounded timeout=300 flags=cbrtf bound="window: whole bytes in [2*mds, 2^30]; W_max, W_last_max: whole packets < 2^16"
+//@ harness props=C10 tier=quick level=bounded timeout=600 flags=cbrtf bound="window: whole bytes in [2*mds, 2^30]; W_max, W_last_max: whole packets < 2^16"
 //@ fn Cubic::multiplicative_decrease
 #[kani::proof]
 #[kani::unwind(3)]
 #[kani::stub(crate::recovery::hybrid_slow_start::HybridSlowStart::use_hystart_parameter, any_hystart)]
-fn vq_c10_cubic_multiplicative_decrease() {
+fn vq_c10_cubic_multiplicative_decrease_bounded() {
     vq_c10_cubic_multiplicative_decrease_body(false);
 }
 
@@ -214,13 +217,13 @@ fn vq_c10_cubic_multiplicative_decrease_body(full: bool) {
 }
 
 // ---------------------------------------------------------------------------------------------------
-//@ harness props=C10 tier=quick level=bounded timeout=300 flags=cbrtf bound="window: whole bytes in [2*mds, 2^30]; W_max, W_last_max: whole packets < 2^16"
+//@ harness props=C10 tier=quick level=bounded timeout=600 flags=cbrtf bound="window: whole bytes in [2*mds, 2^30]; W_max, W_last_max: whole packets < 2^16"
 //@ fn CubicCongestionController::on_packet_lost
 //@ fn CubicCongestionController::on_congestion_event
 #[kani::proof]
 #[kani::unwind(3)]
 #[kani::stub(crate::recovery::hybrid_slow_start::HybridSlowStart::use_hystart_parameter, any_hystart)]
-fn vq_c10_cubic_on_packet_lost() {
+fn vq_c10_cubic_on_packet_lost_bounded() {
     vq_c10_cubic_on_packet_lost_body(false);
 }
 
@@ -278,13 +281,13 @@ fn vq_c10_cubic_on_packet_lost_body(full: bool) {
     kani::cover!(true, "reach:end");
 }
 
-//@ harness props=C10 tier=quick level=bounded timeout=300 flags=cbrtf bound="window: whole bytes in [2*mds, 2^30]; W_max, W_last_max: whole packets < 2^16"
+//@ harness props=C10 tier=quick level=bounded timeout=600 flags=cbrtf bound="window: whole bytes in [2*mds, 2^30]; W_max, W_last_max: whole packets < 2^16"
 //@ fn CubicCongestionController::on_explicit_congestion
 //@ fn CubicCongestionController::on_congestion_event
 #[kani::proof]
 #[kani::unwind(3)]
 #[kani::stub(crate::recovery::hybrid_slow_start::HybridSlowStart::use_hystart_parameter, any_hystart)]
-fn vq_c10_cubic_on_explicit_congestion() {
+fn vq_c10_cubic_on_explicit_congestion_bounded() {
     vq_c10_cubic_on_explicit_congestion_body(false);
 }
 
@@ -419,35 +422,47 @@ fn vq_c10_cubic_on_packet_discarded() {
 }
 
 // ---------------------------------------------------------------------------------------------------
-//@ harness props=C10 tier=quick level=bounded timeout=300 flags=cbrtf bound="window: whole bytes in [2*mds, 2^30]; W_max, W_last_max: whole packets < 2^16"
+//@ harness props=C10 tier=quick level=bounded timeout=600 flags=cbrtf bound="datagram size change 9000->1200 or 1500->1200 (DESIGN 6 item 6); window: every f32 in [2*mds, 2^32)"
 //@ fn CubicCongestionController::on_mtu_update
 //@ fn CubicCongestionController::initial_window
 #[kani::proof]
 #[kani::unwind(3)]
 #[kani::stub(crate::recovery::hybrid_slow_start::HybridSlowStart::use_hystart_parameter, any_hystart)]
-fn vq_c10_cubic_on_mtu_update() {
-    vq_c10_cubic_on_mtu_update_body(false);
+fn vq_c10_cubic_on_mtu_update_shrink() {
+    let (old, new) = if kani::any() { (9000, 1200) } else { (1500, 1200) };
+    vq_c10_cubic_on_mtu_update_body(old, new);
 }
 
-//@ harness props=C10 tier=thorough level=full timeout=1800 flags=cbrtf
+//@ harness props=C10 tier=quick level=bounded timeout=600 flags=cbrtf bound="datagram size change 1200->9000 or 1200->1500; window: every f32 in [2*mds, 2^32)"
+//@ fn CubicCongestionController::on_mtu_update
+//@ fn CubicCongestionController::initial_window
+#[kani::proof]
+#[kani::unwind(3)]
+#[kani::stub(crate::recovery::hybrid_slow_start::HybridSlowStart::use_hystart_parameter, any_hystart)]
+fn vq_c10_cubic_on_mtu_update_grow() {
+    let (old, new) = if kani::any() { (1200, 9000) } else { (1200, 1500) };
+    vq_c10_cubic_on_mtu_update_body(old, new);
+}
+
+//@ harness props=C10 tier=thorough level=full timeout=3000 flags=cbrtf
 //@ fn CubicCongestionController::on_mtu_update
 //@ fn CubicCongestionController::initial_window
 #[kani::proof]
 #[kani::unwind(3)]
 #[kani::stub(crate::recovery::hybrid_slow_start::HybridSlowStart::use_hystart_parameter, any_hystart)]
 fn vq_c10_cubic_on_mtu_update_full() {
-    vq_c10_cubic_on_mtu_update_body(true);
+    let old: u16 = kani::any();
+    let new: u16 = kani::any();
+    kani::assume(old >= 1200 && old <= 9000 && new >= 1200 && new <= 9000);
+    vq_c10_cubic_on_mtu_update_body(old, new);
 }
 
-fn vq_c10_cubic_on_mtu_update_body(full: bool) {
-    let mut cc = any_cc(true, full);
+fn vq_c10_cubic_on_mtu_update_body(old: u16, new: u16) {
+    let mut cc = any_cc_mds(old, true, true);
     let mut sink = Sink { slow_start_exits: 0 };
     let cwnd = cc.congestion_window;
     let bif = *cc.bytes_in_flight;
     let k0 = kind(&cc);
-    let old = cc.max_datagram_size;
-    let new: u16 = kani::any();
-    kani::assume(new >= 1200 && new <= 9000);
     cc.on_mtu_update(new, &mut sink);
 
     assert!(cc.max_datagram_size == new && cc.cubic.max_datagram_size == new, "C10/cubic.on_mtu_update/records_new_datagram_size");
@@ -467,10 +482,10 @@ fn vq_c10_cubic_on_mtu_update_body(full: bool) {
     }
     assert!(known || cc.congestion_window < TWO_POW_32, "C10/cubic.on_mtu_update/window_representable_no_overflow#outside-known");
     assert!(*cc.bytes_in_flight == bif && kind(&cc) == k0, "C10/cubic.on_mtu_update/frame");
-    kani::cover!(old == 9000 && new == 1200 && cwnd == 18000.0, "reach:shrink_at_minimum_window");
-    kani::cover!(old == 1200 && new == 9000, "reach:grow");
+    kani::cover!(cwnd == 2.0 * old as f32, "reach:at_minimum_window_of_old_size");
+    kani::cover!(new > old || cc.congestion_window < cwnd, "reach:window_follows_datagram_size");
     kani::cover!(cc.congestion_window == iw as f32 && scaled < iw as f32, "reach:raised_to_initial_window");
-    kani::cover!(known, "reach:known_class_scaled_window_exceeds_u32");
+    kani::cover!(known || new <= old, "reach:known_class_scaled_window_exceeds_u32_when_growing");
     kani::cover!(true, "reach:end");
     // the property statement read strictly: "never overflows".  Expected to FAIL on the unchanged tree
     // for windows above 2^32 * old/new bytes (>= 572 MB) when the datagram size grows: `as u32` saturates.
@@ -492,7 +507,7 @@ fn any_rtt() -> RttEstimator {
 #[kani::proof]
 #[kani::unwind(3)]
 #[kani::stub(crate::recovery::hybrid_slow_start::HybridSlowStart::use_hystart_parameter, any_hystart)]
-fn vq_c10_cubic_on_ack() {
+fn vq_c10_cubic_on_ack_slow_start_recovery() {
     let mut cc = any_cc(true, true);
     let mut sink = Sink { slow_start_exits: 0 };
     let cwnd = cc.congestion_window;
